@@ -16,6 +16,8 @@ OBVIOUS_REDIRECTS_RE = re.compile(
     % r"(?:redirect(?:_to)?|target|redir|next|link|orig|goto|url|[luq])",
     re.I,
 )
+# NOTE: the hostname is case-insensitive and can be followed by a port
+YOUTUBE_REDIRECT_RE = re.compile(r"youtube\.com(?::\d+)?/redirect\?", re.I)
 REDIRECTION_DOMAINS_RE = re.compile(
     r"(?:\.ampproject\.org/[cv]/(?:s/)?|bc\.marfeelcache\.com/amp/|bc\.marfeel\.com/)",
     re.I,
@@ -75,7 +77,7 @@ def infer_redirection(url, recursive=True):
                     target = None
 
             # Idiotic youtube redirections
-            elif "youtube.com/redirect?" in url:
+            elif YOUTUBE_REDIRECT_RE.search(url):
                 target = "https://" + potential_target
 
     if target is None:
